@@ -19,7 +19,7 @@ from .c12 import HoldRepo, ReachedClone, Touched
 
 ROBOT_TEXTS = None      # filled from the live exception classes
 USER_TEXTS = ['@robot reset', '@robot force_reset', '@robot help', '@robot status', '@robot build',
-              '@robot create_pull_requests', 'thanks!', '/reset', '@robot: reset']
+              '@robot create_pull_requests', 'thanks!', '/reset', '@robot: reset', '@robot frobnicate']
 COMMAND_OUTCOMES = {'ResetComplete', 'LossyResetWarning', 'HelpMessage', 'StatusReport',
                     'CommandNotImplemented'}
 
@@ -28,7 +28,7 @@ def robot_texts():
     from bert_e import exceptions as ex
     out = []
     for cls in (ex.InitMessage, ex.ResetComplete, ex.LossyResetWarning, ex.HelpMessage,
-                ex.StatusReport, ex.CommandNotImplemented, ex.ApprovalRequired):
+                ex.StatusReport, ex.CommandNotImplemented, ex.ApprovalRequired, ex.UnknownCommand):
         out.append(common.named_render(cls.template, code=cls.code))
     return out
 
@@ -102,6 +102,8 @@ def evaluate(history, lossy):
             out = 'TOUCHED'
         except ex.BertE_Exception as e:
             out = type(e).__name__
+            if isinstance(e, ex.TemplateException):
+                evaluate.last_message = (str(e), type(e).dont_repeat_if_in_history)
     finally:
         C._reset = orig
     return out, posted, [(c.author, c.text) for c in comments]
@@ -113,8 +115,18 @@ def analyse(history, lossy):
     h = list(history)
     outs = []
     for k in range(3):
+        evaluate.last_message = None
         out, posted, h2 = evaluate(h, lossy)
         outs.append((out, list(posted)))
+        # (iv) what blocks the pull request is explained: the message of the evaluation is posted
+        #      unless the robot's latest message already says exactly that
+        if evaluate.last_message is not None:
+            msg, policy = evaluate.last_message
+            robot_before = [t for a, t in h if a == 'robot']
+            last = robot_before[-1] if robot_before else None
+            if msg not in posted and ((policy == 0) or (policy == -1 and last != msg)):
+                bad.append('the message of an evaluation is not posted although the robot\'s latest message '
+                           'is a different one (evaluation %d)' % (k + 1))
         # (i) no message twice in a row
         for i in range(len(h), len(h2)):
             if i > 0 and h2[i][0] == 'robot' and h2[i - 1] == h2[i]:
